@@ -446,6 +446,7 @@ def equiv_work(payload):
 
 
 def run(tier, seed, only=None):
+    pool.set_recycle(20)
     rep = Report(
         PID, tier, seed, "exploration",
         rule="(a) all load histories of length <= %d over 5 cards sharing particle names (in-process, same dict objects reused) against fresh-process loads; (b,c,e) a grammar of generated cards "
